@@ -558,7 +558,11 @@ func TestC09Exhaustive(t *testing.T) {
 func TestC09Faults(t *testing.T) {
 	var cases []C09Case
 	follow := func(size int) []C09Op {
-		return []C09Op{{Op: "append", Roots: []int{9}}, {Op: "free", Idx: []int{0}}, {Op: "roots", Off: 0, Len: -1}}
+		// the Old ops address the original contract again: if the fault ended
+		// in a committed renewal they must be refused, otherwise they are
+		// ordinary operations
+		return []C09Op{{Op: "append", Roots: []int{9}}, {Op: "free", Idx: []int{0}}, {Op: "roots", Off: 0, Len: -1},
+			{Op: "roots", Len: -1, Old: true}, {Op: "append", Roots: []int{8}, Old: true}, {Op: "free", Idx: []int{0}, Old: true}}
 	}
 	add := func(size int, f Fault, op C09Op) {
 		op.Op, op.Fault = "fault", &f
@@ -610,6 +614,6 @@ func TestC09Faults(t *testing.T) {
 			forAll(kind, func(f Fault) { add(size, f, C09Op{}) })
 		}
 	}
-	rule := fmt.Sprintf("fault enumeration: {append, free (every non-empty subset), replenish accounts, replenish pools, fund, sector roots, write, form, renew, refresh full, refresh partial} x {close before each renter step, host deadline fires while it waits for the renter, half a message then close} + {random signature, signature over another revision number, signature by another key} at the signing point + for form / renew / refresh {renter input signatures invalid, renter inputs double-spent through the pool right before the signatures are sent} (every handler check passes, the pool rejects the finished set), on contracts of 0..%d sectors; afterwards an honest append, free and full root listing on the same contract", maxSize)
+	rule := fmt.Sprintf("fault enumeration: {append, free (every non-empty subset), replenish accounts, replenish pools, fund, sector roots, write, form, renew, refresh full, refresh partial} x {close before each renter step, host deadline fires while it waits for the renter, half a message then close} + {random signature, signature over another revision number, signature by another key} at the signing point + for form / renew / refresh {renter input signatures invalid, renter inputs double-spent through the pool right before the signatures are sent} (every handler check passes, the pool rejects the finished set), on contracts of 0..%d sectors; afterwards an honest append, free and full root listing on the same (or renewed) contract, then the same three against the original contract id (refused if it was renewed)", maxSize)
 	runDirect(t, rule, cases)
 }
